@@ -23,7 +23,8 @@ EXPLANATION = (
     "Compiler; R6 the containment relation behind cycle detection and the depth sort is complete: in found_container every "
     "by-value component of every ValueType variant (element types, named lengths, struct/word names; pointers and views "
     "are the two reviewed exceptions) reaches found_container/found_container_1, constant types and member types are "
-    "passed to it, and names used in a constant initialiser go through use_containee. Metamorphic equality under permutation is not decided.")
+    "passed to it, and names used in a constant initialiser go through use_containee. Metamorphic equality under permutation is not decided."
+    " ADDED LATER: C05.R8 (who may write the scoper's state, the constant-initialiser context included) is shared.")
 
 VR = "alpha::scoper::variable_references::"
 
